@@ -20,7 +20,7 @@ inductive Step (E : Env) : Cx → Cx → Prop
       Step E c { c with scope := c.scope + 1, frames := c.frames + kPartial, path := c.path + 1 }
   | blockPush (c : Cx) : c.scope ≤ E.depth →
       Step E c { c with scope := c.scope + 1, frames := c.frames + kCall, path := c.path + 1 }
-  | blockCopy (c : Cx) : c.copyDepth ≤ E.depth → Step E c (c.copied false false c.tname kCall)
+  | blockCopy (c : Cx) : c.copyDepth ≤ E.depth → Step E c (c.copied c.noInclude c.noBlock c.tname kCall)
 
 inductive Reach (E : Env) : Cx → Cx → Prop
   | refl (c : Cx) : Reach E c c
@@ -126,7 +126,8 @@ theorem from_all (E : Env) :
     exact From.of_step (Step.blockPush c (by omega)) ih
   · intro c s name body h d tail hl hc; simp only [render, h, hl, hc, dite_true]; exact From.nil rfl
   · intro c s name body h d tail hl hc ih
-    simp only [render, h, hl, hc, dite_false]
+    simp only [render, hl, hc, dite_false]
+    rw [if_neg h]
     exact From.of_step (Step.blockCopy c (by omega)) (From.evs_eq rfl ih)
   -- 29-34 bodyLoop
   · intro c s; simp only [bodyLoop]; exact From.nil rfl
